@@ -60,6 +60,7 @@ func NewInterp(prog *ssa.Program, ctx *Ctx) *Interp {
 	in.installStubs3()
 	in.installStubs4()
 	in.installStubs5()
+	in.installStubs6()
 	return in
 }
 
@@ -367,9 +368,12 @@ func (in *Interp) global(g *ssa.Global) Ptr {
 }
 
 var initDeny = map[string]bool{"runtime": true, "reflect": true, "os": true, "syscall": true, "sync": true, "time": true,
-	"regexp": true, "encoding/json": true, "fmt": true, "internal/reflectlite": true, "errors": true, "io": true,
+	"regexp": true, "regexp/syntax": true, "encoding/json": true, "fmt": true, "internal/reflectlite": true, "errors": true,
 	"unsafe": true, "sync/atomic": true, "internal/cpu": true, "internal/bytealg": true, "math": true, "math/big": true,
-	"strconv": true, "unicode": false}
+	"math/rand": true, "math/rand/v2": true, "os/signal": true, "net": true, "io/fs": true, "os/exec": true, "os/user": true,
+	"github.com/itchyny/go-yaml": true, "github.com/mattn/go-isatty": true, "github.com/mattn/go-runewidth": true,
+	"github.com/itchyny/timefmt-go": true, "log": true, "flag": true, "testing": true, "encoding/binary": true,
+	"crypto/rand": true, "hash/crc32": true, "internal/godebug": true, "internal/poll": true, "internal/testlog": true}
 
 func (in *Interp) ensureInit(p *ssa.Package) {
 	if in.inited[p] {
@@ -400,7 +404,17 @@ func (in *Interp) ensureInit(p *ssa.Package) {
 	}
 	if f := p.Func("init"); f != nil && f.Blocks != nil {
 		in.allowInit = p
-		in.callFunction(f, nil)
+		func() {
+			defer func() {
+				if r := recover(); r != nil {
+					// an init that cannot be interpreted leaves the package partially
+					// initialised; recorded, and visible as a stub hit in the evidence
+					in.StubHits["package init not fully interpreted: "+p.Pkg.Path()]++
+					in.allowInit = nil
+				}
+			}()
+			in.callFunction(f, nil)
+		}()
 	}
 }
 
